@@ -380,6 +380,26 @@ def reproduce_finding(ctx, f):
             return type(e) is SyntaxError
         except Exception:
             return False
+    if f['id'] in ('D-11h', 'D-11i', 'D-11j'):
+        from chameleon import PageTemplate
+        from chameleon.exc import TemplateError
+        src = f['input']['src']
+        try:
+            PageTemplate(src)
+            return False
+        except TemplateError as e:
+            if f['id'] != 'D-11i':
+                return False
+            # the token is not where the error says it is
+            tok = getattr(e, 'token', None)
+            off = getattr(e, 'offset', None)
+            return tok is not None and off is not None and src[off:off + len(tok)] != str(tok)
+        except AttributeError:
+            return f['id'] == 'D-11h'
+        except LookupError as e:
+            return f['id'] == 'D-11j' and type(e) is LookupError
+        except Exception:
+            return False
     return None
 
 
